@@ -836,7 +836,8 @@ func (r *Runner) execSlice(st *State, f *Frame, x *ssa.Slice) {
 func (r *Runner) execMakeSlice(st *State, f *Frame, x *ssa.MakeSlice) {
 	ln := r.operand(st, x.Len).Term()
 	cp := r.operand(st, x.Cap).Term()
-	r.panicCheck(st, "makeslice", exprText(f.fn, x.Len), And(Le(Zero, ln), Le(ln, cp), Le(cp, maxLen)), x.Pos())
+	// sizes are checked for sign and len <= cap; running out of memory is not modelled
+	r.panicCheck(st, "makeslice", exprText(f.fn, x.Len), And(Le(Zero, ln), Le(ln, cp), Le(cp, BigLit(pow2(62)))), x.Pos())
 	f.regs[x] = r.newSlice(st, x.Type(), ln, cp, true)
 }
 
